@@ -27,11 +27,28 @@ reg("C04",
                  "the consumer-side disagreement in that state is reported under its own assertion id (known finding)"],
     )
 
+reg("C04",
+    name="C04_fanin", src="harness/C04_fanin.cpp",
+    anchor_files=_ANCHORS,
+    quick=dict(defs=dict(NCYC=2, NOPS=2, LAST_OPS=1, GMAX=1000), symx=dict(shards=16, **{"max-wall": 600})),
+    thorough=dict(defs=dict(NCYC=3, NOPS=2, LAST_OPS=1, GMAX=1000), symx=dict(shards=16, **{"max-wall": 3000, "shard-depth": 8})),
+    reach=["end", "fanin_list", "fanin_bundle", "bound_source_ticks", "late_bind_of_unwritten_source", "late_bind_of_source_written_this_cycle",
+           "late_bind_replays_older_time", "late_bind_replays_older_time_after_parent_ticked_this_cycle"],
+    bounds="unit level, no graph: one active TSInput with the non-peered root TSB{items: X}, X in {non-peered TSL<TS<int>,2> of peered elements, non-peered TSB{a,b} "
+           "of peered fields} (enumerated), two TSOutput<TS<int>> sources; NCYC+1 cycles of NOPS operations (LAST_OPS in the last) from {nothing, write source i, "
+           "bind element i to source i (late / dynamic binding via TSInputView::bind_output, replaying the source's historical stamp)} in every order; base time, "
+           "gaps in [1,GMAX] us (so the replayed t_old < T is symbolic) and payloads symbolic; elements, container and root checked at the cycle time and at T+1 us; "
+           "notifications of the active root checked one by one (due exactly when the root stamp advances, carrying that time)",
+    outside="unbind / rebind of an element, sampled binds (bind_output_sampled), REF sources, more than two elements, nested non-peered prefixes below the container",
+    assumptions=["late binding is done from harness code with TSInputView::bind_output, the call the runtime uses when nested graphs are instantiated"],
+    )
+
 META = dict(
     level="bounded symbolic model checking of the time-series flag machinery (TSDataTracking::record_modified, TSParentLink::notify_child_modified, invalidate, "
           "atomic / fixed-structured / slot / window ops, TSOutputView and TSInputView / target-link reads) against a mirror model: every operation history up to "
           "the bound for eight shapes, all times and payloads symbolic",
     note="F1 (consumer modified / last_modified_time differ from the producer's after an explicit invalidation) is an open known finding asserted under its own "
          "id; F2 (TSInputView::delta_value leaking the value at child positions) was found by this harness and is fixed in /repo 4775a99; the TSW model follows "
-         "08e1221 (valid only while min_period elements are held); details and triage in notes/C04.md",
+         "08e1221 (valid only while min_period elements are held); C04_fanin covers late / dynamic binding of fan-in (non-peered TSB/TSL) consumers: an older "
+         "stamp replayed by a bind never rewinds element, container or root; details and triage in notes/C04.md",
 )
